@@ -54,9 +54,8 @@ VARIABLES
     charts,           \* set of [s, e, num, val]: the chart objects; val = set of [p, c, k, v], v > 0
     resp,             \* status of the last worker request (0: none)
     hist,             \* history: set of cells, v = the number of increments that ever landed in the cell
-    nInc,
     built,            \* history: set of [wk, mf, src]: mode file and folded files when the week's report was built
-    nRun, nDown, nSet, nWork,
+    nInc, nRun, nDown, nSet, nWork,   \* bounds
     last              \* the action that led here
 
 cvars == <<files, local, ready, uploaded, store>>                       \* the client side + upload bucket
@@ -65,7 +64,6 @@ vars == <<base, day, tod, wend, mf, files, local, ready, uploaded, store, merged
           hist, built, nInc, nRun, nDown, nSet, nWork, last>>
 
 Lbl(op, p, n, m, x, up, s, e) == [op |-> op, p |-> p, n |-> n, m |-> m, x |-> x, up |-> up, s |-> s, e |-> e]
-NoRep == [wk |-> -1, x |-> -1, progs |-> {}, data |-> {}]
 
 (* ---- configuration semantics (Approval.tla) ------------------------------ *)
 (* Approval's operators, tabulated once over the finite universe of builds and *)
@@ -338,7 +336,6 @@ ChartCounts == [][last'.op = "chart" => ChartCountsOn(last'.s, last'.e, merged, 
 
 (* the calendar side of C09 on the files present *)
 SpansOK == \A c \in files : c.e - c.b \in 1..7 /\ Wd(c.e) = wend /\ c.v >= 1
-(* crash-free runs with an answering server leave no report waiting unless it is not Sendable *)
 TypeOK == /\ \A r \in local \cup ready \cup uploaded \cup store : r.x \in Xs /\ r.progs \subseteq Builds
           /\ \A a, b \in local : a.wk = b.wk => a = b
           /\ \A a, b \in store : (a.wk = b.wk /\ a.x = b.x) => a = b
